@@ -432,8 +432,13 @@ def main(argv=None):
                             continue
                         return k
                 return None
+            # contracts that could not be decided as a whole (a construct the engine does not support,
+            # exploration truncated, hard time limit): only there the float companion decides - a
+            # concrete failure of the same clause on the real code is the best evidence available,
+            # and on a tree where everything is decided this never applies
+            undecided_contracts = set(u['contract'] for u in undecided if 'contract' in u)
             for f in bounded['failures']:
-                if f['contract'] not in bo:
+                if f['contract'] not in bo and f['contract'] not in undecided_contracts:
                     continue
                 key = (f['contract'], f['clause'])
                 kf0 = _known_for(key, f)
@@ -444,6 +449,8 @@ def main(argv=None):
                 d = os.path.join(OUT, 'replay', prop)
                 os.makedirs(d, exist_ok=True)
                 ctb = [c for c in contracts if c.ident() == f['contract']][0]
+                if f['contract'] in undecided_contracts and f['contract'] not in bo:
+                    f = dict(f, note='float companion of a contract the engine could not decide on this tree')
                 path = os.path.join(d, ('%s__%s' % key).replace('/', '__').replace('[', '(').replace(']', ')') + '.json')
                 with open(path, 'w') as fh:
                     json.dump({'property': prop, 'obligation': '%s/%s' % key, 'clause': f['clause'], 'kind': 'bounded',
